@@ -371,7 +371,9 @@ func Chains(j *job.Job, s *job.Sink) {
 func Malformed(j *job.Job, s *job.Sink) {
 	bad := []string{"", "|", "1|", "|1", "..", "1..", "..5", "1..2..3", "a", "1..b", "1.5", "1..2|", "1 2", "--1", "1-2", "1...5", "min..", "..max", "5..1", "1..5|3..2", "1,5", "0x", "1e3",
 		// sign forms: at most one sign, directly before the digits
-		"+-5..5", "0|+-3", "-+5", "++5", "+", "-", "- 5", "5-", "+-0x10..0", "1..+-2", "-", "1..-", "min..+", "-min", "+max"}
+		"+-5..5", "0|+-3", "-+5", "++5", "+", "-", "- 5", "5-", "+-0x10..0", "1..+-2", "-", "1..-", "min..+", "-min", "+max",
+		// white space inside a token (around "|" and ".." it is fine, inside a number or a keyword it is not)
+		"1 0..2 0", "1. .5", "ma x", "m in..5", "0x1 0", "1\n0", "1\t0..20", "5..1 0", "mi n", "1 ..5| 2 0"}
 	for i, str := range bad {
 		if i%j.Shards != j.Shard {
 			continue
